@@ -4,6 +4,7 @@ import (
 	"bytes"
 	"encoding/json"
 	"fmt"
+	"reflect"
 	"sort"
 	"strings"
 
@@ -252,8 +253,12 @@ func genMarshalRes(r *Rng, typ jsonapi.Type, o *Out) (jsonapi.Resource, map[stri
 		res = newSoft(typ)
 		o.stat("res.soft")
 	} else {
-		res = newWrapped(typ)
 		o.stat("res.wrapped")
+		if r.bool() {
+			o.stat("res.struct-literal")
+			return newWrappedLiteral(typ, mStrPool[r.IntN(len(mStrPool))], vals), vals
+		}
+		res = newWrapped(typ)
 	}
 	fill(res, mStrPool[r.IntN(len(mStrPool))], vals)
 	return res, vals
@@ -314,8 +319,20 @@ func suiteMarshal(r *Rng, n int, thorough bool, o *Out) {
 		}
 		// C01: unmarshal what was written against a schema holding the type; selected fields
 		// come back with the same value, the others zero (all selected: the whole resource)
+		// the schema to unmarshal against: for a wrapped struct the type built from the struct
+		// (so that what comes back is a wrapped struct again), else the soft type
 		sch := &jsonapi.Schema{}
-		_ = sch.AddType(typ.Copy())
+		backed := false
+		if _, isW := res.(*jsonapi.Wrapper); isW && !strings.Contains(fmt.Sprint(typ.Rels), "other") {
+			if bt, err := jsonapi.BuildType(reflect.New(structTypeFor(typ)).Interface()); err == nil && sxType(stripNewFunc(bt)) == sxType(typ) {
+				putType(sch, bt)
+				backed = true
+				o.stat("roundtrip.into-struct")
+			}
+		}
+		if !backed {
+			putType(sch, typ.Copy())
+		}
 		obsU, pvU, back := runUnmarshalRes("UnmarshalResource", out, sch, false)
 		switch {
 		case back == nil && strings.HasPrefix(pvU, "FAIL"):
@@ -363,7 +380,7 @@ func suiteMarshal(r *Rng, n int, thorough bool, o *Out) {
 		o.emit(op, obs, pv)
 		emitJSONText(o, out, obs, tree)
 		// the unmarshaling half of the round trip, against the model's UnmarshalResource
-		o.emit(lst("unm", "res", sxSSchema([]stype{{typ: typ, backed: false}}), sxResSke(out)), obsU, "na")
+		o.emit(lst("unm", "res", sxSSchema([]stype{{typ: typ, backed: backed}}), sxResSke(out)), obsU, "na")
 	}
 }
 
